@@ -464,7 +464,10 @@ func c02BuildCLI() (string, error) {
 		dir = os.TempDir()
 	}
 	out := filepath.Join(dir, fmt.Sprintf("liquid-cli-%d", os.Getpid()))
-	cmd := exec.Command("go", "build", "-o", out, "github.com/osteele/liquid/cmd/liquid")
+	// built in the tree under test itself (its own go.mod; nothing there is rewritten with -mod=readonly)
+	cmd := exec.Command("go", "build", "-o", out, "./cmd/liquid")
+	cmd.Dir = hx.RepoDir()
+	cmd.Env = append(os.Environ(), "GOFLAGS=-mod=readonly")
 	if b, err := cmd.CombinedOutput(); err != nil {
 		return "", fmt.Errorf("building the command-line tool: %v: %s", err, b)
 	}
